@@ -43,6 +43,13 @@ CHECKS = {
          "Rule.parse, _parse_seq_args, _parse_tuple_args, _parse_map_args, _parse_contains, _parse_type_arg, LogicalType.logical_parse, ParserField.parse_value / parse_output_value, BaseParser.parse_addition, "
          "FunctionParser.parse_pos_type: every operation outside a handler is an obligation under the type knowledge at that point; leaves may raise any Exception. Two known findings (unhashable converted key / item). "
          "Termination of the converter loops and the function-call wrappers are not decided - hence 'other'.", "DESIGN 3 C04"),
+ "C12": ("other", "contract-based deductive verification of the preference-dependent branches of the converters and container parsers; one syntactic audit",
+         "Promises proved on the real code: _attempt_from (no unwrapping under no_explicit_cast; a multi-element collection never collapses under no_data_loss), to_null, to_bool (only unambiguous booleans under no_data_loss), "
+         "to_float / to_integer (only numbers under no_explicit_cast), _parse_tuple_args excess rule, bytes decode strictly (audit). The subset clause (whatever converts under the flags converts equally without them) "
+         "and the date/time converters are not decided - hence 'other'. One known finding (1/0 -> bool under no_explicit_cast).", "DESIGN 3 C12"),
+ "C01": ("other", "contract-based deductive verification: type-conformance postconditions on converters and structural postconditions on the container parsers",
+         "Proved: to_null / to_bool / to_float / to_integer return an instance of the requested (sub)class on every exit; TypeTransformer.apply / __call__ return the leaf conversion; the container parsers return element-wise converted results "
+         "(C11 contracts) and Rule.parse returns only after every validator and raise_error. The structural-induction lemma over all declared types and the remaining converters are not done - hence 'other'.", "DESIGN 3 C01"),
  "C16": ("proof", "contract-based deductive verification: representation invariant of TypeRegistry preserved by every operation",
          "The registry's list/cache are related to an abstract view (entries with priority and ghost registration stamp); "
          "I1 priority order, I2 most-recent-first, I3 cache coherence, I4 stamps are established by __init__ and preserved by the register "
